@@ -534,3 +534,12 @@ def run(ctx):
 
 EXPLANATION = EXPLANATION + " " + (
     "R04.10 (replay.py, see C03): the answers (W_i, U_i) for overlapping, nested and disjoint probe intervals, asked after a history, are linear forms in independent unit normals; their covariance matrix is computed exactly (sum of products of coefficients) and compared entry by entry with Cov(W_i, W_j) = |I_i n I_j|, Cov(U_i, W_j) = int_{I_i} |[s_i, r] n I_j| dr, Cov(U_i, U_j) = int int max(0, min(r, q) - max(s_i, s_j)) dq dr, i.e. with the definition of Brownian motion and U(s,t) = int_s^t (W_r - W_s) dr -- a reference that owes nothing to the code. R04.2 additionally evaluates the constructor on concrete end points off the tolerance grid: the root's variances are those of the node it covers.")
+
+
+_run_before_r04_11 = run
+
+
+def run(ctx):
+    _run_before_r04_11(ctx)
+    from . import replay_rules
+    ctx.guard(replay_rules.r04_11)
